@@ -235,16 +235,49 @@ def parse_playback(out):
     return res
 
 
+def unwindset_args(crate, h):
+    """Per-loop unwinding limits for destructor loops that are dead in the harness but that CBMC would otherwise unwind
+    to the global bound on every path (e.g. the drop glue of `Vec<Transaction>` behind an enum variant the harness never
+    builds). The loop names are discovered from the freshly compiled GOTO binary of the harness. Unwinding assertions
+    stay on: if such a loop could run one iteration the harness FAILS instead of silently truncating."""
+    pats = h.get("unwindset")
+    if not pats:
+        return [], []
+    import glob
+    name = h["name"]
+    cands = [f for f in glob.glob(os.path.join(kani_target(crate), "kani", "*", "debug", "build", "*", "*", "out", f"*{len(name)}{name}.out"))
+             if not f.endswith(".symtab.out")]
+    if not cands:
+        return [], []
+    f = max(cands, key=os.path.getmtime)
+    try:
+        out = subprocess.run(["cbmc", "--show-loops", f], capture_output=True, text=True, timeout=600).stdout
+    except Exception:
+        return [], []
+    loops = re.findall(r"^Loop (\S+):$", out, flags=re.M)
+    chosen = []
+    for lp in loops:
+        for rx, bound in pats:
+            if re.search(rx, lp):
+                chosen.append(f"{lp}:{bound}")
+                break
+    if not chosen:
+        return [], []
+    return ["-Z", "unstable-options", "--cbmc-args", "--unwindset", ",".join(chosen)], chosen
+
+
 def run_harness(crate, h, tier, logdir):
     name = h["name"]
     timeout = h.get("timeout", {}).get(tier, 900 if tier == "quick" else 3600)
     mem = h.get("mem_gb", 12)
-    cmd = kani_cmd(crate, ["--harness", hpath(name), "--exact"] + h.get("kani_args", []))
+    us_args, us_loops = unwindset_args(crate, h)
+    cmd = kani_cmd(crate, ["--harness", hpath(name), "--exact"] + h.get("kani_args", []) + us_args)
     st, out, wall = run_proc(cmd, crate_dir(crate), timeout, mem_gb=mem)
     with open(os.path.join(logdir, name + ".log"), "w") as f:
         f.write(out)
     r = parse_kani(out)
-    r.update({"name": name, "wall_s": round(wall, 2), "exit": st, "timeout_s": timeout, "mem_cap_gb": mem})
+    r.update({"name": name, "wall_s": round(wall, 2), "exit": st, "timeout_s": timeout, "mem_cap_gb": mem,
+              "unwindset": [u[-90:] for u in us_loops]})
     if st == "timeout":
         r["status"] = "timeout"
     elif r["verdict"] == "success" and st == 0:
@@ -416,7 +449,7 @@ def check_property(pid, tier, jobs):
             # counterexample: get concrete values and replay natively
             h = [x for x in harnesses if x["name"] == r["name"]][0]
             cmd = kani_cmd(crate, ["--harness", hpath(r["name"]), "--exact", "-Z", "concrete-playback",
-                                   "--concrete-playback=print"] + h.get("kani_args", []))
+                                   "--concrete-playback=print"] + h.get("kani_args", []) + unwindset_args(crate, h)[0])
             # building the counterexample trace needs more memory than the verdict
             st, out, wall = run_proc(cmd, crate_dir(crate), r["timeout_s"] * 2, mem_gb=max(32, 2 * r["mem_cap_gb"]))
             with open(os.path.join(logdir, r["name"] + ".playback.log"), "w") as f:
@@ -492,7 +525,7 @@ def check_property(pid, tier, jobs):
             "harnesses": [{k: r.get(k) for k in ("name", "status", "checks_total", "checks_failed", "unreachable",
                                                  "cover_sat", "cover_total", "queries", "sat_vars", "sat_clauses",
                                                  "solver_s", "symex_s", "verification_s", "wall_s", "timeout_s",
-                                                 "mem_cap_gb", "stubs", "decl", "replay", "reproduced", "known_finding")}
+                                                 "mem_cap_gb", "stubs", "decl", "replay", "reproduced", "known_finding", "unwindset")}
                           for r in results],
             "functions_encoded": functions[:200],
             "functions_encoded_count": len(functions),
